@@ -11,6 +11,14 @@ package main
 //               VersionedTransaction.Marshal and PayloadMarshal
 //   dec <hex>   observe Decoder.DecodeTransaction (field dump) and UnmarshalVersionedTransaction
 //   big <n> <b> one-input transaction with an n-byte extra (size gate / extra limit)
+//   alias <when> <how> <layout> <hex>
+//               buffer-ownership sequence: decode from a buffer the caller keeps (exact slice,
+//               slice with spare capacity, or a window in the middle of a larger frame), overwrite
+//               the buffer (<how>) either before any accessor is called or after a first
+//               PayloadHash / PayloadMarshal / Marshal (<when>), then observe PayloadMarshal,
+//               PayloadHash, Marshal, the field dump, and Marshal again after the returned slice
+//               was overwritten too. The model is pure, so it answers with the values of the
+//               original bytes.
 //
 // Property mode (independent of the model):
 //   C06:remarshal          an accepted byte string does not re-marshal to itself
@@ -19,6 +27,26 @@ package main
 //   C06:hash-auth          PayloadHash changes when only the signatures change
 //   C06:hash-insensitive   PayloadHash/PayloadMarshal unchanged after a payload field changed
 //   C06:encode-undecodable the encoder's own output of an in-limits transaction is rejected
+//   C06:hash-aliases-buffer  PayloadMarshal/PayloadHash of a decoded transaction follow the caller's
+//                            input buffer (or a previously returned slice) instead of the content
+//   C06:marshal-aliases-buffer  same for Marshal
+//   C06:fields-alias-buffer  decoded fields change when the input buffer is overwritten
+//   C06:marshal-returns-alias  overwriting the slice returned by Marshal changes a later Marshal /
+//                            PayloadMarshal / PayloadHash, or encoded bytes follow the field slices
+//   C06:hash-stale-cache     a fresh AsVersioned() of a SignedTransaction whose payload fields were
+//                            reassigned still answers with the old hash
+//
+// Ownership rules the checks assume (read off the code and its callers):
+//   * the argument of UnmarshalVersionedTransaction belongs to the caller (p2p passes windows of
+//     network frames, storage passes badger values): nothing may be retained;
+//   * Marshal() returns a fresh slice owned by the caller;
+//   * PayloadMarshal() returns the object's own cache (ver.pmbytes); every caller in the repository
+//     only reads it, so writing into it is outside the API and is not exercised;
+//   * pmbytes/hash memoise per VersionedTransaction object: changing payload fields of the same
+//     object after the first PayloadHash is not defined by the code (the repository always builds
+//     the Transaction completely and then calls AsVersioned(), which starts with empty caches);
+//     what is exercised instead is that a *new* AsVersioned() sees the new content, and that
+//     attaching signatures after hashing (what SignInput/AggregateSign do) keeps hash and payload.
 
 import (
 	"bytes"
@@ -1058,10 +1086,154 @@ func ver(s *common.SignedTransaction) *common.VersionedTransaction {
 	return &common.VersionedTransaction{SignedTransaction: *s}
 }
 
+var aliasWhen = []string{"first", "afterhash", "afterpayload", "aftermarshal", "never"}
+var aliasHow = []string{"zero", "inc", "flip", "other"}
+var aliasLayout = []string{"exact", "spare", "middle"}
+
+// scribble overwrites a buffer the way a caller recycling it would.
+func scribble(b []byte, how string, r *Rand) {
+	switch how {
+	case "zero":
+		for i := range b {
+			b[i] = 0
+		}
+	case "inc":
+		for i := range b {
+			b[i]++
+		}
+	case "flip":
+		if len(b) > 0 {
+			b[r.Intn(len(b))] ^= 0x55
+		}
+	case "other": // the next message lands in the same buffer: another valid encoding, repeated
+		o := (&tTx{Version: 5, Asset: bytes.Repeat([]byte{0xbb}, 32), Extra: []byte("next message")}).loose(knobs{})
+		for i := range b {
+			b[i] = o[i%len(o)]
+		}
+	default:
+		panic("harness: unknown scribble kind " + how)
+	}
+}
+
+func oneOf(x string, set []string) bool {
+	for _, y := range set {
+		if x == y {
+			return true
+		}
+	}
+	return false
+}
+
+func sameOrHex(b, orig []byte) string {
+	if bytes.Equal(b, orig) {
+		return "same"
+	}
+	return Hex(b)
+}
+
+func execAlias(line string, t []string) Result {
+	res := Result{Tags: []string{"alias"}}
+	when, how, layout := t[1], t[2], t[3]
+	if !oneOf(when, aliasWhen) || !oneOf(how, aliasHow) || !oneOf(layout, aliasLayout) {
+		panic("harness: bad alias op")
+	}
+	orig := UnHex(t[4])
+	r := lineHash(line)
+	// the caller's buffer
+	var frame, buf []byte
+	switch layout {
+	case "exact":
+		frame = make([]byte, len(orig))
+		buf = frame
+	case "spare":
+		frame = make([]byte, len(orig)+64)
+		buf = frame[:len(orig)]
+	default:
+		frame = make([]byte, len(orig)+24)
+		buf = frame[9 : 9+len(orig) : 9+len(orig)]
+	}
+	copy(buf, orig)
+	var v *common.VersionedTransaction
+	un, _, _ := Catch(func() string {
+		x, err := common.UnmarshalVersionedTransaction(buf)
+		if err != nil {
+			return "reject"
+		}
+		v = x
+		return "ok"
+	})
+	if v == nil {
+		res.Out = "tx=" + un
+		res.Tags = append(res.Tags, "alias:reject")
+		return res
+	}
+	signed := v.AggregatedSignature != nil || len(v.SignaturesMap) > 0
+	res.Tags = append(res.Tags, "alias:"+when, "alias:"+how, "alias:"+layout, "alias:"+map[bool]string{true: "signed", false: "unsigned"}[signed])
+	res.Nontrivial = true
+	// what a decode of a private copy answers (the reference, independent of the model)
+	ref, err := common.UnmarshalVersionedTransaction(append([]byte{}, orig...))
+	if err != nil {
+		res.PropKey, res.PropDesc = "C06:hash-aliases-buffer", "a private copy of accepted bytes is rejected"
+		res.Out = "tx=ok"
+		return res
+	}
+	refPM := append([]byte{}, ref.PayloadMarshal()...)
+	refH := ref.PayloadHash()
+	fields0 := fromGo(&v.SignedTransaction).spec()
+
+	out, pan, _ := Catch(func() string {
+		switch when {
+		case "afterhash":
+			_ = v.PayloadHash()
+		case "afterpayload":
+			_ = v.PayloadMarshal()
+		case "aftermarshal":
+			_ = v.Marshal()
+		}
+		if when != "never" {
+			scribble(frame, how, r)
+		}
+		pm := v.PayloadMarshal()
+		h := v.PayloadHash()
+		m := v.Marshal()
+		mKeep := append([]byte{}, m...)
+		fields := "same"
+		if fromGo(&v.SignedTransaction).spec() != fields0 {
+			fields = "changed"
+			res.PropKey, res.PropDesc = "C06:fields-alias-buffer", "decoded fields changed when the input buffer was overwritten"
+		}
+		hs := "pm"
+		if h != crypto.Blake3Hash(pm) {
+			hs = "other"
+		}
+		if !bytes.Equal(pm, refPM) || h != refH {
+			res.PropKey = "C06:hash-aliases-buffer"
+			res.PropDesc = fmt.Sprintf("decoded from a %s buffer, buffer overwritten (%s, %s): PayloadMarshal/PayloadHash differ from those of a decode of the same bytes; payload now %s",
+				layout, how, when, clip(Hex(pm)))
+		} else if !bytes.Equal(m, orig) {
+			res.PropKey, res.PropDesc = "C06:marshal-aliases-buffer", "Marshal of the decoded transaction differs from the accepted bytes after the input buffer was overwritten"
+		}
+		// the slice Marshal returned belongs to the caller: overwrite it, ask again
+		scribble(m, how, r)
+		m2 := v.Marshal()
+		if res.PropKey == "" && (!bytes.Equal(m2, mKeep) || !bytes.Equal(v.PayloadMarshal(), refPM) || v.PayloadHash() != refH) {
+			res.PropKey, res.PropDesc = "C06:marshal-returns-alias", "overwriting the slice returned by Marshal changed a later Marshal/PayloadMarshal/PayloadHash"
+		}
+		return "tx=ok payload=" + sameOrHex(pm, orig) + " marshal=" + sameOrHex(mKeep, orig) + " hash=" + hs + " fields=" + fields + " remarshal=" + sameOrHex(m2, orig)
+	})
+	if pan {
+		res.PropKey, res.PropDesc = "C06:hash-aliases-buffer", "accessor panicked after the input buffer was overwritten"
+	}
+	res.Out = out
+	return res
+}
+
 func execTxCodec(_ *State, line string) Result {
 	t := strings.Fields(line)
 	res := Result{}
 	switch t[0] {
+	case "alias":
+		return execAlias(line, t)
 	case "enc":
 		tt := parseSpec(t[1:])
 		var encB, marB, payB []byte
@@ -1145,6 +1317,67 @@ func execTxCodec(_ *State, line string) Result {
 		_, mpan, _ := Catch(func() string { v := ver(mut.toGo()); mb = v.PayloadMarshal(); mh = v.PayloadHash(); return "" })
 		if !mpan && (bytes.Equal(mb, payB) || mh == h0) {
 			res.PropKey, res.PropDesc = "C06:hash-insensitive", "payload field "+label+" changed but PayloadMarshal/PayloadHash did not"
+			return res
+		}
+		// --- ownership of slices on the encode side
+		// (a) Marshal's result is the caller's: overwriting it must not reach the object
+		own := parseSpec(t[1:])
+		vo := ver(own.toGo())
+		m1 := vo.Marshal()
+		scribble(m1, "inc", r)
+		if !bytes.Equal(vo.Marshal(), marB) || !bytes.Equal(vo.PayloadMarshal(), payB) || vo.PayloadHash() != h0 {
+			res.PropKey, res.PropDesc = "C06:marshal-returns-alias", "overwriting the slice returned by Marshal changed a later Marshal/PayloadMarshal/PayloadHash"
+			return res
+		}
+		// (b) encoded bytes are copies: overwriting the field slices afterwards must not reach them
+		own2 := parseSpec(t[1:])
+		v2 := ver(own2.toGo())
+		m2, p2 := v2.Marshal(), v2.PayloadMarshal()
+		scribble(own2.Extra, "inc", r)
+		for _, in := range own2.Inputs {
+			scribble(in.Genesis, "inc", r)
+		}
+		for _, o := range own2.Outputs {
+			scribble(o.Script, "inc", r)
+		}
+		if !bytes.Equal(m2, marB) || !bytes.Equal(p2, payB) {
+			res.PropKey, res.PropDesc = "C06:marshal-returns-alias", "bytes returned by Marshal/PayloadMarshal follow the field slices they were encoded from"
+			return res
+		}
+		// (c) caches are per VersionedTransaction object: after the payload fields of the
+		// SignedTransaction are reassigned, a new AsVersioned() must answer for the new content
+		if !mpan && tt.Version == common.TxVersionHashSignature {
+			s := tt.toGo()
+			if s.AsVersioned().PayloadHash() != h0 {
+				res.PropKey, res.PropDesc = "C06:hash-stale-cache", "AsVersioned().PayloadHash() differs from a direct VersionedTransaction"
+				return res
+			}
+			g := mut.toGo()
+			s.Version, s.Asset, s.Inputs, s.Outputs, s.References, s.Extra = g.Version, g.Asset, g.Inputs, g.Outputs, g.References, g.Extra
+			if s.AsVersioned().PayloadHash() != mh {
+				res.PropKey, res.PropDesc = "C06:hash-stale-cache", "payload field "+label+" reassigned, a new AsVersioned() still answers with another content's hash"
+				return res
+			}
+		}
+		// (d) hash first, attach the authorization data afterwards (what SignInput/AggregateSign do)
+		if alt.spec() != tt.spec() {
+			bare := parseSpec(t[1:])
+			bare.Agg, bare.Sigs = nil, nil
+			vb := ver(bare.toGo())
+			hb := vb.PayloadHash()
+			ag := alt.toGo()
+			vb.AggregatedSignature, vb.SignaturesMap = ag.AggregatedSignature, ag.SignaturesMap
+			var late, fresh []byte
+			_, lp, _ := Catch(func() string { late = vb.Marshal(); fresh = ver(alt.toGo()).Marshal(); return "" })
+			if !lp {
+				res.Tags = append(res.Tags, "prop:sign-after-hash")
+				back2, err := common.UnmarshalVersionedTransaction(late)
+				if hb != h0 || vb.PayloadHash() != h0 || !bytes.Equal(late, fresh) || err != nil || back2.PayloadHash() != h0 ||
+					!bytes.Equal(back2.PayloadMarshal(), payB) {
+					res.PropKey, res.PropDesc = "C06:hash-auth", "hash taken before the signatures were attached: Marshal/PayloadHash disagree with a transaction built with the signatures from the start"
+					return res
+				}
+			}
 		}
 		return res
 	case "dec":
@@ -1181,12 +1414,23 @@ func execTxCodec(_ *State, line string) Result {
 			} else if len(v.SignaturesMap) > 0 {
 				res.Tags = append(res.Tags, "dec:accept-sigmaps")
 			}
+			// b belongs to this caller: recycle it before the first accessor is called
+			fields0 := fromGo(&v.SignedTransaction).spec()
+			scribble(b, "inc", nil)
+			if fromGo(&v.SignedTransaction).spec() != fields0 {
+				res.PropKey, res.PropDesc = "C06:fields-alias-buffer", "decoded fields changed when the input buffer was overwritten"
+				return res
+			}
 			re, rp, _ := Catch(func() string { return Hex(v.Marshal()) })
-			if rp || re != Hex(b) {
+			if rp || re != t[1] {
 				res.PropKey, res.PropDesc = "C06:remarshal", "accepted bytes do not re-marshal to themselves: "+clip(re)
 				return res
 			}
 			pm, pp, _ := Catch(func() string { return Hex(v.PayloadMarshal()) })
+			if ref, err := common.UnmarshalVersionedTransaction(UnHex(t[1])); !pp && (err != nil || Hex(ref.PayloadMarshal()) != pm || ref.PayloadHash() != v.PayloadHash()) {
+				res.PropKey, res.PropDesc = "C06:hash-aliases-buffer", "input buffer overwritten after decoding: PayloadMarshal/PayloadHash differ from those of a decode of the same bytes; payload now "+clip(pm)
+				return res
+			}
 			if pp || v.PayloadHash() != crypto.Blake3Hash(UnHex(pm)) {
 				res.PropKey, res.PropDesc = "C06:hash-preimage", "PayloadHash is not the hash of PayloadMarshal"
 				return res
@@ -1255,6 +1499,31 @@ func txInLimits(t *tTx) bool {
 	return len(t.spec()) < 2*(4<<20) // far below the size gate
 }
 
+// buffer-ownership sequences: mostly accepted encodings (half of them unsigned, as deposit,
+// mint and genesis transactions travel), some mutated / non-canonical ones
+func genAliasCase(r *Rand, tier string) string {
+	var b []byte
+	switch r.Intn(8) {
+	case 0:
+		b = genBytesCase(r, tier)
+	case 1:
+		b = genNonCanonical(r, tier)
+	default:
+		t := genValidTx(r, tier)
+		if len(t.Extra) > 300 {
+			t.Extra = t.Extra[:r.Range(0, 300)]
+		}
+		if r.Bool() {
+			t.Agg, t.Sigs = nil, nil
+		}
+		b = encodeOrNil(t)
+		if b == nil {
+			b = []byte{0x77, 0x77, 0, 5}
+		}
+	}
+	return "alias " + Pick(r, aliasWhen) + " " + Pick(r, aliasHow) + " " + Pick(r, aliasLayout) + " " + Hex(b)
+}
+
 func init() {
 	mk := func(t *tTx) string { return "enc " + t.spec() }
 	z32, s64z := make([]byte, 32), make([]byte, 64)
@@ -1282,7 +1551,9 @@ func init() {
 			"plus one-dimension-at-the-limit variants (256/257 items, index 1024/1025, versions 4/6, invalid signer lists); " +
 			"dec: valid encodings, their truncations, single byte/bit changes, insertions, deletions, trailing bytes, arbitrary bytes, " +
 			"and a non-canonical stream (padded integers, unsorted/duplicate signature entries, wrong mask kind, trailing mask bytes, over-announced maps); " +
-			"non-trivial = marshal succeeded (enc) or the raw decoder accepted (dec); distinct = distinct op line",
+			"alias: accepted encodings (half unsigned) and some rejected ones, decoded from an exact / spare-capacity / mid-frame buffer that is " +
+			"overwritten (zero, +1, one byte, next message) before the first accessor or after a first PayloadHash/PayloadMarshal/Marshal; " +
+			"non-trivial = marshal succeeded (enc), the raw decoder accepted (dec) or the transaction was accepted (alias); distinct = distinct op line",
 		Corpus: [][]string{
 			{mk(base()), mk(withAgg(nil)), mk(withAgg([]int{0, 1, 2})), mk(withAgg([]int{500})), mk(withAgg([]int{0, 31})), mk(withAgg([]int{0, 32})),
 				mk(withAgg([]int{65535})), mk(withSigs([]tEntry{e(0), e(1)}, []tEntry{})), mk(withSigs([]tEntry{e(65535)}))},
@@ -1294,16 +1565,29 @@ func init() {
 				lo(withAgg([]int{3, 65536}), knobs{forceOrd: true}), lo(withAgg([]int{65535}), knobs{forceOrd: true}),
 				"dec -", "dec 77770005", "dec 7777"},
 			// around config.TransactionMaximumSize (88 bytes of framing + extra) and ExtraSizeStorageCapacity
+			func() []string {
+				var c []string
+				for _, w := range aliasWhen {
+					for k, l := range aliasLayout {
+						c = append(c, "alias "+w+" "+aliasHow[k%len(aliasHow)]+" "+l+" "+Hex(base().loose(knobs{})),
+							"alias "+w+" other "+l+" "+Hex(withSigs([]tEntry{e(0), e(1)}).loose(knobs{})),
+							"alias "+w+" zero "+l+" "+Hex(withAgg([]int{0, 1, 2}).loose(knobs{})))
+					}
+				}
+				return append(c, "alias first inc exact "+Hex(base().loose(knobs{padInt: 1})), "alias first inc exact -")
+			}(),
 			{"big 0 0", "big 65536 1", "big 300000 7", "big 4194216 1", "big 4194217 1", "big 4194304 2", "big 4194305 2"},
 		},
 		Gen: func(r *Rand, i int, tier string) []string {
-			switch r.Intn(10) {
+			switch r.Intn(12) {
 			case 0, 1, 2:
 				return []string{"enc " + genValidTx(r, tier).spec()}
 			case 3:
 				return []string{"enc " + genBoundaryTx(r, tier).spec()}
 			case 4, 5, 6, 7:
 				return []string{"dec " + Hex(genBytesCase(r, tier))}
+			case 8, 9:
+				return []string{genAliasCase(r, tier)}
 			default:
 				return []string{"dec " + Hex(genNonCanonical(r, tier))}
 			}
